@@ -186,8 +186,11 @@ def tempDirPrefix : S := ['_', 's', 'c', 'i', 'p', 'i', 'p', 'e', '_', 't', 'm',
 
 def concat (l : List S) : S := l.foldr (· ++ ·) []
 
+/-- in-ports that carry a sub-stream (joined ports): their carrier IP's path is not hashed -/
+def isJoined (id : Identity) (port : S) : Bool := id.subs.any (·.1 = port)
+
 def hashPieces (id : Identity) : List S :=
-  [id.name] ++ id.ins.flatMap (fun (_, p) => splitAllPaths p) ++
+  [id.name] ++ (id.ins.filter fun (k, _) => !isJoined id k).flatMap (fun (_, p) => splitAllPaths p) ++
   id.subs.flatMap (fun (_, ms) => ms.flatMap splitAllPaths) ++
   id.params.map (fun (k, v) => kv k v) ++ id.tags.map (fun (k, v) => kv k v)
 
